@@ -592,3 +592,92 @@ func (w *World) pathTo(roots []*ssa.Function, target *ssa.Function) []string {
 	}
 	return nil
 }
+
+// reachableFromCut is reachableFrom that does not traverse into (or through) the cut functions.
+func (w *World) reachableFromCut(roots []*ssa.Function, cut map[*ssa.Function]bool) map[*ssa.Function]bool {
+	g := w.callgraph()
+	seen := map[*ssa.Function]bool{}
+	var work []*ssa.Function
+	for _, r := range roots {
+		if r != nil && !seen[r] && !cut[r] {
+			seen[r] = true
+			work = append(work, r)
+		}
+	}
+	for len(work) > 0 {
+		f := work[len(work)-1]
+		work = work[:len(work)-1]
+		var next []*ssa.Function
+		if n := g.Nodes[f]; n != nil {
+			for _, e := range n.Out {
+				next = append(next, e.Callee.Func)
+			}
+		}
+		next = append(next, f.AnonFuncs...)
+		for _, c := range next {
+			if c != nil && !seen[c] && !cut[c] {
+				seen[c] = true
+				work = append(work, c)
+			}
+		}
+	}
+	return seen
+}
+
+// renderOnlyReachable: functions reachable from render roots without entering the parser
+// (a render may load and parse another template; what the parser does to the fresh tree it
+// is building is not "rendering").
+func (w *World) renderOnlyReachable() map[*ssa.Function]bool {
+	if w.reach == nil {
+		w.reach = map[string]map[*ssa.Function]bool{}
+	}
+	if r, ok := w.reach["renderonly"]; ok {
+		return r
+	}
+	cut := map[*ssa.Function]bool{w.ssaFunc(w.method("Parser", "Parse")): true}
+	r := w.reachableFromCut(w.renderRoots(), cut)
+	w.reach["renderonly"] = r
+	return r
+}
+
+// pathToCut is pathTo that avoids the cut functions.
+func (w *World) pathToCut(roots []*ssa.Function, target *ssa.Function, cut map[*ssa.Function]bool) []string {
+	g := w.callgraph()
+	prev := map[*ssa.Function]*ssa.Function{}
+	seen := map[*ssa.Function]bool{}
+	var q []*ssa.Function
+	for _, r := range roots {
+		if !seen[r] && !cut[r] {
+			seen[r] = true
+			q = append(q, r)
+		}
+	}
+	sort.Slice(q, func(i, j int) bool { return ssaName(q[i]) < ssaName(q[j]) })
+	for len(q) > 0 {
+		f := q[0]
+		q = q[1:]
+		if f == target {
+			var path []string
+			for x := f; x != nil; x = prev[x] {
+				path = append([]string{ssaName(x)}, path...)
+			}
+			return path
+		}
+		var next []*ssa.Function
+		if n := g.Nodes[f]; n != nil {
+			for _, e := range n.Out {
+				next = append(next, e.Callee.Func)
+			}
+		}
+		next = append(next, f.AnonFuncs...)
+		sort.Slice(next, func(i, j int) bool { return ssaName(next[i]) < ssaName(next[j]) })
+		for _, c := range next {
+			if c != nil && !seen[c] && !cut[c] {
+				seen[c] = true
+				prev[c] = f
+				q = append(q, c)
+			}
+		}
+	}
+	return nil
+}
